@@ -5,10 +5,13 @@
 From LV Require Import Lib.Codec Model.Blur.
 Require Import ExtrOcamlBasic.
 
+(* equality of canonical rationals: numerators and denominators coincide *)
+Definition qc_eqb (a b : Qc) : bool := Z.eqb (Qnum (this a)) (Qnum (this b)) && Pos.eqb (Qden (this a)) (Qden (this b)).
+
 Fixpoint lookup (L : nat) (tbl : list (Qc * Qc)) (q : Qc) : GRS L :=
   match tbl with
   | [] => []
-  | (k, v) :: r => if Qc_eq_bool k q then gofq L v else lookup L r q
+  | (k, v) :: r => if qc_eqb k q then gofq L v else lookup L r q
   end.
 
 Definition ptable : parser (list (Qc * Qc)) := plist (ppair pQ pQ).
